@@ -89,7 +89,7 @@ class Engine:
 
     # ------------------------------------------------------------------ fresh symbols
     def fresh(self, prefix, sort=None):
-        sort = sort or self.voc.Val
+        sort = sort if sort is not None else self.voc.Val
         return z3.Const(f"{prefix}!{next(self.fresh_n)}", sort)
 
     def fresh_sv(self, prefix, pt="any"):
